@@ -12,6 +12,8 @@ SCEN = {
         "collect x assign-global": sc([[G], [S]], 30, []),
         "collect x assign-global [two stoppers excluded]": sc([[G], [S]], 26, ["two-stoppers"]),
         "collect x primitive-call": sc([[G], [P]], 28, []),
+        "assign-global x spawn": sc([[S], ["spawn"]], 28, []),
+        "assign-global x exiting thread": sc([[S], [U]], 28, []),
     },
     "thorough": {
         "collect x assign-global": sc([[G], [S]], 30, []),
@@ -21,11 +23,18 @@ SCEN = {
         "assign-global x primitive-call": sc([[S], [P]], 44, []),
         "collect x user-steps": sc([[G], [U, U]], 36, []),
         "collect x collect": sc([[G], [G]], 40, ["two-stoppers"]),
+        "assign-global x spawn": sc([[S], ["spawn"]], 40, []),
+        "collect x spawn": sc([[G], ["spawn"]], 36, []),
+        "assign-global x exiting thread": sc([[S], [U]], 36, []),
     },
 }
 
 
 def _replay(r):
+    ops = [op for _, prog in r["spec"] for op in prog]
+    if "spawn" in ops or r["name"].endswith("exiting thread"):
+        # no forced schedule: stress with a single stopper and a watchdog
+        return "stress_progress", {}
     return "two_stoppers", {}
 
 
